@@ -82,17 +82,29 @@ func c08Body(t *testing.T, depth int, order bool) mc.Body {
 				if err := mk("N1", root, "vNode", data.Point{Type: "description", Text: "n1", Origin: "creator"}, data.Point{Type: "value", Value: 1, Origin: "creator"}); err != nil {
 					return err
 				}
-				if err := mk("K1", "N1", "vKid", data.Point{Type: "description", Text: "k1", Origin: "creator"}); err != nil {
+				// K1 is a MOVED node: first placed under the unrelated sibling S and deleted there, then placed
+				// under N1 (so its oldest edge is a tombstoned one)
+				if err := mk("S", root, "other", data.Point{Type: "description", Text: "s", Origin: "creator"}); err != nil {
+					return err
+				}
+				if err := mk("K1", "S", "vKid", data.Point{Type: "description", Text: "k1", Origin: "creator"}); err != nil {
+					return err
+				}
+				if err := g.edge("K1", "S", "", true, "creator"); err != nil {
+					return err
+				}
+				if err := g.edge("K1", "N1", "vKid", false, "creator"); err != nil {
 					return err
 				}
 				if err := mk("GK", "K1", "vGrand", data.Point{Type: "description", Text: "gk", Origin: "creator"}); err != nil {
 					return err
 				}
+
 				// a second client of the same type exists next to it (the manager runs one client per node)
 				if err := mk("N2", root, "vNode", data.Point{Type: "description", Text: "n2", Origin: "creator"}); err != nil {
 					return err
 				}
-				return mk("S", root, "other", data.Point{Type: "description", Text: "s", Origin: "creator"})
+				return nil
 			}, false)
 			if err != nil {
 				out = mc.Outcome{Violation: "HARNESS: fixture: " + err.Error(), Key: "harness"}
